@@ -555,6 +555,8 @@ def custom_c12(builds, r, thorough, res):
                 reqs += l1.requests_for(r, g, 6 * k, True, storages=("o", "m", "c"))
                 if g in ("SO2", "SE2", "SO3", "SE3"):
                     reqs += l1.ctor_requests(r, g, 10 * k, True)
+                if not g.startswith("B:"):      # algorithms and isApprox over float as well
+                    reqs += l1.algo_requests(fb[True], r, g, 2 * k, True) + l1.approx_requests(fb[True], r, g, 2 * k, True)
         bad += l1_float(res, reqs, fb[True])
         n += len(reqs)
     res.add_cells(list(cells))
